@@ -26,6 +26,7 @@ EVID = os.path.join(VERIF, "evidence")
 KNOWN = os.path.join(VERIF, "known_findings.txt")
 
 REACH = "VF_REACH"
+MAX_REPLAYS = 6
 
 # library sources (relative to /repo/spqlios) by group; discovered from the tree at run time
 GENERIC_EXCLUDE = re.compile(r"(aarch64|neon|win32)")
@@ -219,7 +220,7 @@ class Res:
 
 
 CBMC_BASE = ["--no-malloc-may-fail", "--unwinding-assertions", "--drop-unused-functions",
-             "--no-signed-overflow-check", "--no-undefined-shift-check", "--json-ui",
+             "--no-signed-overflow-check", "--no-undefined-shift-check", "--json-ui", "--verbosity", "8",
              "--object-bits", "12"]
 
 
@@ -526,6 +527,7 @@ def finish(ctx, results, meta, extra_results=()):
     violations = []
     inconcl = []
     known_hit = {}
+    more_failed = []
     fam = {}
     for r in results:
         fam.setdefault(r.ob.family, [0, 0])
@@ -538,6 +540,9 @@ def finish(ctx, results, meta, extra_results=()):
             if k:
                 n_known += 1
                 known_hit.setdefault(k["match"], (k, []))[1].append(r.ob.name)
+                continue
+            if len(violations) >= MAX_REPLAYS:
+                more_failed.append(r)
                 continue
             ok, text, rpath = native_replay(ctx, r.ob, r.inputs, "%d" % len(violations))
             r.replay = {"reproduced": ok, "path": rpath, "text": text[-1500:]}
@@ -567,6 +572,10 @@ def finish(ctx, results, meta, extra_results=()):
         log("VIOLATION property=%s replay=%s" % (ctx.prop, r.replay["path"]))
         log("  obligation %s: %s" % (r.ob.name, "; ".join("%s (%s:%s)" % (x[1], x[2], x[3]) for x in r.failed[:4])))
         log("  native replay: " + r.replay["text"].strip().replace("\n", "\n    ")[-800:])
+    if more_failed:
+        log("  ... and %d more failing obligations (solver counterexample found, native replay skipped after %d confirmed): %s" %
+            (len(more_failed), MAX_REPLAYS, ", ".join(r.ob.name for r in more_failed[:20])))
+        n_fail += len(more_failed)
     for x in extra_results:
         if x["status"] == "FAIL":
             log("VIOLATION property=%s replay=%s" % (ctx.prop, x.get("replay", "")))
